@@ -1,0 +1,17 @@
+//go:build verif
+
+package errcode
+
+// Machine-checked contracts for the gocv verifier (/verif/DESIGN.md). Comments only.
+
+// Set only touches the error's extensions (frame) - this is the frame the executor contracts assume for it.
+//@ func Set [C03,C09]
+//@   modifies Error.Extensions maps
+//@   ensures calls(Set) == 0
+
+// C09: the kind that selects the HTTP status is KindUser unless some error carries a registered non-user code;
+// no errors means KindUser (so an empty list can never produce a client-error status).
+//@ func GetErrorKind [C09]
+//@   ensures len(errs) == 0 ==> res0 == KindUser
+//@   ensures res0 != KindUser ==> len(errs) > 0
+//@   modifies nothing
